@@ -215,7 +215,7 @@ def run(ctx):
                 continue
             if rc != 0:
                 res.violations.append(vlib.Violation("git-sizer failed on a valid configuration: %s" % err[:300].decode("latin1"), inp,
-                                                     expected="exit 0", cls="refgroup-symbol-trailing-dot" if trailing_dot else None))
+                                                     expected="exit 0"))
                 continue
             j = json.loads(out)
             tall = {}
@@ -227,6 +227,30 @@ def run(ctx):
                 res.violations.append(vlib.Violation("refgroups read from gitconfig give different tallies than git's listing implies", inp,
                                                      expected=tall, observed=j["reference_groups"]))
             shutil.rmtree(d, ignore_errors=True)
+        # directed: a subsection ending in '.' (legal for git) — the group must be usable like any other
+        d = os.path.join(scratch, "dot")
+        s, c = RC.base_scenario()
+        for n in (b"refs/heads/a", b"refs/heads/b", b"refs/tags/t"):
+            s.refs.append((n, c))
+        s.compute()
+        gitdir = s.materialise(d)
+        with open(os.path.join(gitdir, "config"), "a") as f:
+            f.write('[refgroup "a."]\n\tinclude = refs/heads\n')
+        rc, out, err = S.run_sizer(ctx["bins"]["sizer"], d, ["--json", "--no-progress"])
+        res.case(("trailing-dot",), True)
+        ok = False
+        if rc == 0:
+            try:
+                ok = json.loads(out)["reference_groups"].get("a.") == 2
+            except Exception:
+                ok = False
+        if not ok:
+            narrow = rc != 0 and b"'a.'" in err and b"not defined" in err
+            res.violations.append(vlib.Violation(
+                "a refgroup whose subsection ends in '.' is not read from gitconfig", {"local": ['[refgroup "a."]', "\tinclude = refs/heads"]},
+                expected="exit 0 with reference_groups['a.'] = 2", observed={"rc": rc, "stderr": err[:200].decode("latin1")},
+                cls="refgroup-symbol-trailing-dot" if narrow else None))
+        shutil.rmtree(d, ignore_errors=True)
     finally:
         shutil.rmtree(scratch, ignore_errors=True)
     res.coverage_extra["input_distribution"] = dist
